@@ -7,7 +7,7 @@ SPEC = dict(
           "(leg mirror_long: 1000) top-level commands: SETDATA (1-8 fields, nested paths from a 9-name alphabet + metacharacter names, overwrite, 1/8 of the fields with 2-3 values applied in order, flags "
           "dont-create/dont-overwrite/supersede/add-to-index), REMOVEDATA (literal, wildcard, multi-level, with filter), SETPARAMETERS with 1-2 "
           "SUBSCRIBE: entries (literal / wildcard / absolute paths with host and session clauses, every documented clause form generated as "
-          "refwild AST, 45% with a content filter, 35% re-subscribing an existing path with another filter, !MxUp 1..50, !Self, !Enc), "
+          "refwild AST, 45% with a content filter, 35% re-subscribing an existing path with {same, different, added, removed} filter, 35% of those with PR_NAME_SUBSCRIBE_QUIETLY (which only disables the initial send of NEW subscriptions: enter/leave notices of a filter change stay owed, nothing is tainted; a dedicated operation does it with an exact tree view and counts nodes on all four sides selected-before x selected-after), !MxUp 1..50, !Self, !Enc), "
           "REMOVEPARAMETERS (literal and wildcard keys), GETDATA (refresh of an own subscription; one-shot queries bracketed by pings), "
           "INSERTORDEREDDATA / REORDERDATA (child names read from index updates), BATCH nesting to depth 3, bursts of 8-35 padded sets with the "
           "supersede flag while readers do not read, SETDATATREES (asserted unimplemented); 10% of histories add quiet set / quiet remove / quiet "
@@ -32,7 +32,7 @@ SPEC = dict(
         Leg('mirror_long', 'h_mirror', 'asan', opts={'mode': 'mirror', 'cmds': '1000'}, quick=32, thorough=800, workers=16, leaks=True),
         Leg('memcheck', 'h_mirror', 'plain', opts={'mode': 'mirror'}, quick=48, thorough=960, workers=16, valgrind=True),
     ],
-    min_stats={'regress': {'selftest_oracle_fired': 3, 'quiescent_points': 30, 'mirror_comparisons': 60},
+    min_stats={'regress': {'selftest_oracle_fired': 3, 'quiescent_points': 35, 'mirror_comparisons': 60},
                'mirror': {'commands': 250000, 'quiescent_points': 90000, 'mirror_comparisons': 200000, 'mirror_entries_compared': 400000,
                           'subscriber_table_checks': 2000000, 'histories_nontrivial': 3000,
                           'cmd|resubscribe_with_other_filter_while_overlapping': 3000, 'cmd|remove_with_filter': 8000, 'cmd|removeparams_wildcard': 5000,
@@ -42,6 +42,10 @@ SPEC = dict(
                           'obs_existing_node_entered_match_set': 20000, 'obs_nodes_under_overlapping_subscriptions_with_filter': 100000,
                           'obs_paused_reader_with_2plus_queued_messages': 5000, 'mirror_comparisons_with_small_max_update_items': 15000,
                           'mirror_comparisons_reflect_to_self': 8000, 'quiet_operations_seen_silent': 3000,
+                          'quiet_filter_changes': 2500, 'quiet_filter_changes_with_nodes_entering_the_match_set': 250, 'quiet_filter_changes_with_nodes_entering_the_mirror': 200,
+                          'quiet_filter_changes_with_nodes_leaving_the_mirror': 500, 'quiet_filter_changes_with_nodes_on_all_four_sides': 10, 'cmd|resubscribe_quietly': 3000,
+                          'resub|same|quiet': 800, 'resub|different|quiet': 800, 'resub|added|quiet': 800, 'resub|removed|quiet': 800,
+                          'resub|same|loud': 800, 'resub|different|loud': 800, 'resub|added|loud': 800, 'resub|removed|loud': 800,
                           'cell|resubscribe|f1|w1|o1': 1500, 'cell|set|f1|w1|o1': 8000, 'cell|remove|f1|w1|o1': 1500, 'cell|subscribe|f1|w0|o1': 300},
                'mirror_long': {'commands': 30000, 'mirror_comparisons': 25000},
                'memcheck': {'mirror_comparisons': 1500}},
